@@ -1,12 +1,11 @@
 (* C12 - the resize case.  The host resizes the emulator with T.resize (term.go resize: both
    screens reallocated, the old primary screen re-printed up to the cursor row, each cell with
-   its own style, wrapping and scrolling as print does).  From every well-formed emulator state
-   in Vaxis' modes the result is a well-formed state of the new size in Vaxis' modes whose
-   cursor shape and DECTCEM are unchanged, whose deferred-wrap flag is only set on the last
-   column and whose pen is [resize_pen] - so it is related by [emu_rel] to the resized
-   reference terminal [ref_resized] (all cells unknown: the cell clause is vacuous) as soon as
-   the pen it leaves shows what the pen showed ([resize_pen_ok]); on the alternate screen over
-   a primary screen in the default style that is automatic. *)
+   its own style, wrapping and scrolling as print does, then the pen restored - fix 63dc3f8).
+   From every well-formed emulator state in Vaxis' modes the result is a well-formed state of
+   the new size in Vaxis' modes whose pen, cursor shape and DECTCEM are unchanged and whose
+   deferred-wrap flag is only set on the last column - so it is related by [emu_rel] to the
+   resized reference terminal [ref_resized] (all cells unknown: the cell clause is vacuous).
+   [resize_leaky] is the resize before the fix: it left [resize_pen] in the pen. *)
 From Vx Require Import base.Prelude base.ListX model.Colour model.RenderTypes model.Render model.RefTerm
   model.RenderSpec model.RenderCheck model.Gate model.EmuSpec model.EmuBridge.
 From Vx Require model.Sgr model.Term proofs.TermProofs proofs.TermRefine.
@@ -309,23 +308,27 @@ Proof.
     + split; [|exact Pp']. rewrite Pn', Hp2, Pn1. reflexivity.
 Qed.
 
-(* T.resize from a well-formed state in Vaxis' modes *)
-Theorem resize_ri e w h t w2 h2 :
+(* the state the re-print loop starts from, and the loop *)
+Definition resize_init (t : T.term) (w2 h2 : Z) : T.term :=
+  let g := T.blank_grid w2 h2 in
+  T.set_last (T.set_cursor (T.set_margins (T.set_grids t g g false) 0 (h2 - 1) (T.t_left (T.set_grids t g g false)) (w2 - 1)) 0 0) false.
+
+Lemma reprint_stage e w h t w2 h2 :
   TP.WFs0 e w h t -> vaxis_modes t = true -> 1 <= w2 -> 1 <= h2 ->
   Forall (Forall Pc) (T.t_prim t) -> P (T.t_pen t) ->
-  exists t2, T.resize t w2 h2 = T.TOk t2 /\ TP.WFs0 e w2 h2 t2 /\ vaxis_modes t2 = true /\
-    T.t_pen t2 = resize_pen t /\ P (T.t_pen t2) /\ T.t_shape t2 = T.t_shape t /\ T.t_md t2 = T.t_md t /\
-    (T.t_last t2 = true -> T.t_col t2 = w2 - 1) /\ T.t_onalt t2 = T.m_smcup (T.t_md t) /\
-    Forall (Forall Pc) (T.t_prim t2).
+  exists t1, T.reprint_rows (match T.t_prim t with [] => 0 | l :: _ => zlen l end) (T.t_prim t) 0 (T.t_row t)
+               (resize_init t w2 h2) = T.TOk t1 /\
+    TP.WFs0 e w2 h2 t1 /\ T.t_md t1 = T.t_md t /\ T.t_cs t1 = T.t_cs t /\ T.t_top t1 = 0 /\ T.t_bot t1 = h2 - 1 /\
+    T.t_shape t1 = T.t_shape t /\ T.t_onalt t1 = false /\
+    T.t_pen t1 = resize_pen t /\ P (T.t_pen t1) /\
+    (T.t_last t1 = true -> T.t_col t1 = w2 - 1) /\ Forall (Forall Pc) (T.t_prim t1).
 Proof.
   intros HW HM Hw Hh HPp Hp.
-  destruct (vaxis_modes_facts t HM) as (Hawm & Hirm & Hss & Hdes & _ & _).
-  unfold T.resize. cbv zeta. unfold T.make_grid.
-  destruct (h2 <? 0) eqn:E1; [lia|]. destruct ((0 <? h2) && (w2 <? 0)) eqn:E2; [lia|].
-  cbn [T.tbind].
   pose proof (TP.blank_grid_ok w2 h2 ltac:(lia) ltac:(lia)) as Hg.
+  unfold resize_init. cbv zeta.
   set (g := T.blank_grid w2 h2) in *.
   set (t0 := T.set_last (T.set_cursor (T.set_margins (T.set_grids t g g false) 0 (h2 - 1) (T.t_left (T.set_grids t g g false)) (w2 - 1)) 0 0) false).
+  destruct (vaxis_modes_facts t HM) as (Hawm & Hirm & Hss & Hdes & _ & _).
   assert (W0 : TP.WFs0 e w2 h2 t0).
   { destruct HW. constructor; simpl; auto; lia. }
   assert (R0 : RI e w2 h2 t0).
@@ -340,24 +343,73 @@ Proof.
     assert (Hl : zlen l = w) by (inversion Hprim as [|? ? [Q _] _]; exact Q).
     rewrite Forall_forall. intros x Hx. rewrite Forall_forall in Hprim, HPp.
     destruct (Hprim x Hx) as [Q1 Q2]. split; [lia|]. split; [exact Q2|]. now apply HPp. }
-  rewrite E'. cbn [T.tbind].
   destruct F1 as (G1 & G3 & G4 & G5 & G6 & G7 & G8).
   pose proof R1 as [W1 A1 B1 C1 D1 L1].
   change (T.t_md t0) with (T.t_md t) in *. change (T.t_cs t0) with (T.t_cs t) in *.
   change (T.t_top t0) with 0 in *. change (T.t_bot t0) with (h2 - 1) in *.
   change (T.t_shape t0) with (T.t_shape t) in *. change (T.t_pen t0) with (T.t_pen t) in *.
   change (T.t_onalt t0) with false in *.
+  exists t1. split; [exact E'|]. split; [exact W1|]. split; [exact G6|]. split; [exact G7|].
+  split; [exact G4|]. split; [exact G5|]. split; [exact G3|]. split; [exact G1|].
+  split; [exact Pn1|]. split; [exact Pp1|].
+  split; [exact L1|]. unfold cellsP, T.active in D1. rewrite G1 in D1. exact D1.
+Qed.
+
+Lemma resize_unfold t w2 h2 : 1 <= w2 -> 1 <= h2 ->
+  T.resize t w2 h2 =
+  T.tbind (T.reprint_rows (match T.t_prim t with [] => 0 | l :: _ => zlen l end) (T.t_prim t) 0 (T.t_row t) (resize_init t w2 h2))
+          (fun t1 => T.TOk (T.set_onalt (T.set_pen t1 (T.t_pen t)) (T.m_smcup (T.t_md (T.set_pen t1 (T.t_pen t)))))).
+Proof.
+  intros Hw Hh. unfold T.resize. cbv zeta. unfold T.make_grid.
+  destruct (h2 <? 0) eqn:E1; [lia|]. destruct ((0 <? h2) && (w2 <? 0)) eqn:E2; [lia|]. reflexivity.
+Qed.
+
+Lemma resize_leaky_unfold t w2 h2 : 1 <= w2 -> 1 <= h2 ->
+  resize_leaky t w2 h2 =
+  T.tbind (T.reprint_rows (match T.t_prim t with [] => 0 | l :: _ => zlen l end) (T.t_prim t) 0 (T.t_row t) (resize_init t w2 h2))
+          (fun t1 => T.TOk (T.set_onalt t1 (T.m_smcup (T.t_md t1)))).
+Proof.
+  intros Hw Hh. unfold resize_leaky. cbv zeta. unfold T.make_grid.
+  destruct (h2 <? 0) eqn:E1; [lia|]. destruct ((0 <? h2) && (w2 <? 0)) eqn:E2; [lia|]. reflexivity.
+Qed.
+
+(* T.resize from a well-formed state in Vaxis' modes: the pen is the pen *)
+Theorem resize_ri e w h t w2 h2 :
+  TP.WFs0 e w h t -> vaxis_modes t = true -> 1 <= w2 -> 1 <= h2 ->
+  Forall (Forall Pc) (T.t_prim t) -> P (T.t_pen t) ->
+  exists t2, T.resize t w2 h2 = T.TOk t2 /\ TP.WFs0 e w2 h2 t2 /\ vaxis_modes t2 = true /\
+    T.t_pen t2 = T.t_pen t /\ T.t_shape t2 = T.t_shape t /\ T.t_md t2 = T.t_md t /\
+    (T.t_last t2 = true -> T.t_col t2 = w2 - 1) /\ T.t_onalt t2 = T.m_smcup (T.t_md t) /\
+    Forall (Forall Pc) (T.t_prim t2).
+Proof.
+  intros HW HM Hw Hh HPp Hp.
+  destruct (vaxis_modes_facts t HM) as (Hawm & Hirm & Hss & Hdes & _ & _).
+  destruct (reprint_stage e w h t w2 h2 HW HM Hw Hh HPp Hp) as
+    (t1 & E1 & W1 & Md & Cs & Tp & Bt & Sh & Oa & _ & _ & L1 & C1).
+  rewrite (resize_unfold t w2 h2 Hw Hh), E1. cbn [T.tbind].
   eexists. split; [reflexivity|].
-  split; [now apply TP.WFs_set_onalt|].
+  assert (W2 : TP.WFs0 e w2 h2 (T.set_onalt (T.set_pen t1 (T.t_pen t)) (T.m_smcup (T.t_md (T.set_pen t1 (T.t_pen t))))))
+    by (apply TP.WFs_set_onalt, TP.WFs_set_pen; exact W1).
+  split; [exact W2|].
   split.
-  { unfold vaxis_modes. cbn [T.set_onalt T.set_grids T.t_md T.t_cs T.t_top T.t_bot].
-    rewrite G6, G7, G4, G5. rewrite Hawm, Hirm, Hss, Hdes.
-    rewrite (TP.WFs_height e w2 h2 _ (TP.WFs_set_onalt e w2 h2 t1 _ W1)).
-    cbn. rewrite !Z.eqb_refl. reflexivity. }
-  split; [exact Pn1|]. split; [exact Pp1|]. split; [exact G3|]. split; [exact G6|].
-  split; [exact L1|]. split; [cbn; now rewrite G6|].
-  cbn [T.set_onalt T.set_grids T.t_prim].
-  unfold cellsP, T.active in D1. rewrite G1 in D1. exact D1.
+  { unfold vaxis_modes. rewrite (TP.WFs_height e w2 h2 _ W2).
+    cbn [T.set_onalt T.set_grids T.set_pen T.t_md T.t_cs T.t_top T.t_bot].
+    rewrite Md, Cs, Tp, Bt, Hawm, Hirm, Hss, Hdes. cbn. rewrite !Z.eqb_refl. reflexivity. }
+  split; [reflexivity|]. split; [exact Sh|]. split; [exact Md|].
+  split; [exact L1|]. split; [cbn; now rewrite Md|]. exact C1.
+Qed.
+
+(* the resize before the fix 63dc3f8 (no restore): it left [resize_pen] in the pen *)
+Theorem resize_leaky_pen e w h t w2 h2 :
+  TP.WFs0 e w h t -> vaxis_modes t = true -> 1 <= w2 -> 1 <= h2 ->
+  Forall (Forall Pc) (T.t_prim t) -> P (T.t_pen t) ->
+  exists t2, resize_leaky t w2 h2 = T.TOk t2 /\ T.t_pen t2 = resize_pen t.
+Proof.
+  intros HW HM Hw Hh HPp Hp.
+  destruct (reprint_stage e w h t w2 h2 HW HM Hw Hh HPp Hp) as
+    (t1 & E1 & W1 & Md & Cs & Tp & Bt & Sh & Oa & Pn & _).
+  rewrite (resize_leaky_unfold t w2 h2 Hw Hh), E1. cbn [T.tbind].
+  eexists. split; [reflexivity|]. exact Pn.
 Qed.
 
 End Reprint.
@@ -452,33 +504,32 @@ Proof.
   rewrite (TP.WFs_height e w h t2 W), (TP.WFs_width e w h t2 W). repeat split.
 Qed.
 
-(* The resize case of the history theorem, general form: T.resize never fails from a
-   well-formed state in Vaxis' modes; the result is well-formed in Vaxis' modes at the new size
-   and - if the pen it leaves shows what the pen showed - related to the resized reference
-   terminal, which is one of the terminals RenderHistory.resized allows *)
+(* The resize case of the history theorem: T.resize never fails from a well-formed state in
+   Vaxis' modes; the result is well-formed in Vaxis' modes at the new size and related to the
+   resized reference terminal, which is one of the terminals RenderHistory.resized allows.  The
+   pen clause holds because resize restores the pen (fix 63dc3f8) *)
+Lemma all_true (g : T.grid) : Forall (Forall (fun _ : T.tcell => True)) g.
+Proof. induction g as [|row g IH]; constructor; auto. induction row; constructor; auto. Qed.
+
 Theorem resize_rel e w h t r w2 h2 :
   TP.WFs0 e w h t -> vaxis_modes t = true -> emu_rel t r -> 1 <= w2 -> 1 <= h2 ->
-  resize_pen_ok t = true ->
   exists t2, T.resize t w2 h2 = T.TOk t2 /\ TP.WFs0 e w2 h2 t2 /\ vaxis_modes t2 = true /\
     emu_rel t2 (ref_resized r t2) /\ RenderHistory.resized r (ref_resized r t2) h2 w2.
 Proof.
-  intros HW HM HR Hw Hh Hpen.
-  destruct (resize_ri (fun _ => True) ltac:(auto) I e w h t w2 h2 HW HM Hw Hh) as
-    (t2 & E & W2 & M2 & Pn & _ & Sh & Md & L & _).
-  { clear. induction (T.t_prim t) as [|row g IH]; constructor; auto.
-    induction row; constructor; auto. exact I. }
-  { exact I. }
+  intros HW HM HR Hw Hh.
+  destruct (resize_ri (fun _ => True) ltac:(auto) I e w h t w2 h2 HW HM Hw Hh (all_true _) I) as
+    (t2 & E & W2 & M2 & Pn & Sh & Md & L & _).
   exists t2. split; [exact E|]. split; [exact W2|]. split; [exact M2|]. split; [|now apply (resized_ref r t2 e)].
   pose proof HR as [_ _ _ _ _ A6 A7 A8].
   apply (emu_rel_resized e w2 h2); auto.
-  - rewrite Pn. apply pen_showsb_ok in Hpen. destruct A6 as (B1 & B2 & B3). rewrite <- B1, <- B2. exact Hpen.
+  - rewrite Pn. exact A6.
   - rewrite Md. exact A7.
   - rewrite Sh. exact A8.
 Qed.
 
-(* ... and for a Vaxis application: on the alternate screen over a primary screen in the
-   default style, with the default pen (as every frame leaves it), nothing else is needed, and
-   the situation is re-established *)
+(* ... and for a Vaxis application on the alternate screen over a primary screen in the default
+   style that situation is re-established (no longer needed for the pen; kept: the primary
+   screen underneath stays in the default style through every resize) *)
 Theorem resize_rel_alt e w h t r w2 h2 :
   TP.WFs0 e w h t -> vaxis_modes t = true -> emu_rel t r -> 1 <= w2 -> 1 <= h2 ->
   tm_pen r = tpen0 -> tm_link r = ([], []) -> alt_plain t ->
@@ -489,11 +540,11 @@ Proof.
   pose proof HR as [_ _ _ _ _ A6 A7 A8].
   assert (Hpl : plain (T.t_pen t)) by (unfold plain; rewrite <- Hp0, <- Hl0; exact A6).
   destruct (resize_ri plain plain_erase plain0 e w h t w2 h2 HW HM Hw Hh Hc Hpl) as
-    (t2 & E & W2 & M2 & Pn & Pp & Sh & Md & L & Oa & Cp).
+    (t2 & E & W2 & M2 & Pn & Sh & Md & L & Oa & Cp).
   exists t2. split; [exact E|]. split; [exact W2|]. split; [exact M2|].
   split; [|split; [now apply (resized_ref r t2 e)|]].
   - apply (emu_rel_resized e w2 h2); auto.
-    + rewrite Hp0, Hl0. exact Pp.
+    + rewrite Pn. exact A6.
     + rewrite Md. exact A7.
     + rewrite Sh. exact A8.
   - split; [rewrite Oa; exact Hs|]. split; [rewrite Md; exact Hs|exact Cp].
@@ -505,18 +556,7 @@ Proof.
   intros (K1 & K2 & K3) (A1 & A2 & A3). split; [congruence|]. split; [congruence|]. now rewrite K3.
 Qed.
 
-(* if the hypothesis is in doubt: on the alternate screen over a default primary screen it holds *)
-Lemma alt_plain_pen_ok e w h t : TP.WFs0 e w h t -> vaxis_modes t = true -> alt_plain t -> plain (T.t_pen t) ->
-  resize_pen_ok t = true.
-Proof.
-  intros HW HM (Ho & Hs & Hc) Hp.
-  destruct (resize_ri plain plain_erase plain0 e w h t 1 1 HW HM ltac:(lia) ltac:(lia) Hc Hp) as
-    (t2 & E & W2 & M2 & Pn & Pp & _).
-  unfold resize_pen_ok. apply pen_shows_b. rewrite <- Pn.
-  destruct Hp as (B1 & B2 & _). rewrite B1, B2. exact Pp.
-Qed.
-
-(* ------------------------------------------------------------------ which pen a resize leaves *)
+(* ------------------------------------------------------------------ which pen the unfixed resize left *)
 
 Lemma zget_in_range {A} (l : list A) i : 0 <= i < zlen l -> exists x, zget l i = Some x.
 Proof.
